@@ -194,7 +194,8 @@ def _run_history(idx, ver, ops):
 
 
 BAD_KINDS = ["ku-unknown-type", "hb-not-allowed", "hb-heartbleed", "hb-short-padding", "ccs-after-hs13",
-             "nst-to-server13", "cert-unsolicited13", "pha-bad-cv", "pha-bad-fin", "pha-ctx-reuse", "ku-in-tls12", "hreq13"]
+             "nst-to-server13", "cert-unsolicited13", "pha-bad-cv", "pha-bad-fin", "pha-ctx-reuse", "ku-in-tls12", "hreq13",
+             "pha-ctx-reuse-declined"]
 
 
 def bad_case(job):
@@ -271,6 +272,28 @@ def _bad_case(idx, kind, eut_role, pre):
             chain_before = p.s.session.clientCertChain
             p.c._sendMsg = osend
             p.op("c", p.c._sendMsg(kept["cert"]))  # the same Certificate (same context) again
+    elif kind == "pha-ctx-reuse-declined":
+        # the client first declines (empty Certificate + Finished), the server accepts that; then the client answers
+        # the SAME request once more, this time with its certificate
+        from tlslite.api import X509CertChain
+        kept = {}
+        oh = p.c._handle_pha
+
+        def handle(cr):
+            kept["cr"] = cr
+            return oh(cr)
+        p.c._handle_pha = handle
+        keypair = p.c._client_keypair
+        p.c._client_keypair = (X509CertChain([]), None)
+        p.op("s", p.s.request_post_handshake_auth(settings(minVersion=v, maxVersion=v)))
+        p.op("c", _read_gen(p.c, None, 0))
+        p.op("s", _read_gen(p.s, None, 0))
+        chain_before = p.s.session.clientCertChain
+        p.c._client_keypair = keypair
+        if "cr" in kept:
+            p.op("c", oh(kept["cr"]))
+        else:
+            info["problems"].append("client saw no CertificateRequest")
     elif kind == "ku-unknown-type" or kind == "ku-in-tls12":
         peer_send(KeyUpdate().create(2 if kind == "ku-unknown-type" else 0))
     elif kind == "hb-not-allowed":
@@ -345,7 +368,8 @@ def run(tier):
     bjobs = []
     bi = 0
     for kind in BAD_KINDS:
-        roles = ["s"] if kind in ("nst-to-server13", "cert-unsolicited13", "pha-bad-cv", "pha-bad-fin", "pha-ctx-reuse") else \
+        roles = ["s"] if kind in ("nst-to-server13", "cert-unsolicited13", "pha-bad-cv", "pha-bad-fin", "pha-ctx-reuse",
+                                  "pha-ctx-reuse-declined") else \
                 (["c"] if kind == "hreq13" else ["c", "s"])
         for role in roles:
             for pre in ("none", "data"):
